@@ -3,7 +3,7 @@ CONSTANTS
  K = 3
  Shapes <- ShAll
  MaxFaults = 3
- MaxCrashes = 2
+ MaxCrashes = 1
  InlineAt = 0
  Interval = 1
  MBs = {80}
